@@ -98,13 +98,15 @@ def prog_event(tid, o, i, fl, placement):
         unbound = placement.endswith('_unbound')
         inst = None
         eff_o = o
+        skipexec = False
         if base in ('function', 'emulate', 'auto', 'auto_global', 'auto_closure', 'auto_attr', 'auto_attr2', 'auto_deco_noop'):
             fn = g['w']
             codes = {fn.__wrapped__.__code__} if base == 'emulate' else {fn.__code__}
             plain_target = fn
             if auto:
-                fns.add(fn, 'f1'); fns.add(g['inner'], 'f2')
-                declared, agree = outcome_full(declared_thunk(fn, g['inner'], fl), fns), 'all'
+                real_inner = g.get('inner_real', g['inner'])
+                fns.add(fn, 'f1'); fns.add(real_inner, 'f2')
+                declared, agree = outcome_full(declared_thunk(fn, real_inner, fl), fns), 'all'
         elif base == 'auto_wraps':
             fn, plain_target = g['w'], g['w_orig']
             codes = {g['w_orig'].__code__}      # the frame holding the forwarding call
@@ -114,6 +116,13 @@ def prog_event(tid, o, i, fl, placement):
         elif base == 'auto_param':
             fn, plain_target = g['w'], g['w']
             codes = {g['w0'].__code__}
+        elif base == 'auto_param_default':
+            # the callee parameter keeps its default, which discovery must NOT take for a bound argument: the plain signature of the partial
+            fn, plain_target = g['w'], g['w']
+            codes = {g['w0'].__code__}
+            declared, agree = {'tag': 'none'}, 'ps'
+            eff_o = [{'n': 'h', 'k': 'pok', 'd': True, 'dv': 0, 'an': 0}] + [p for p in o if p['k'] in ('var', 'kwo', 'vkw')]
+            skipexec = True
         else:
             K = g['K']
             raw = K.__dict__['w']
@@ -135,12 +144,16 @@ def prog_event(tid, o, i, fl, placement):
         plain = outcome_full(lambda: signatures.signature(plain_target), fns)
         names = [n for n in progs.named_names(eff_o, i) if n != 'self'] + [alggen.FOREIGN]
         maxpos = progs.npos(eff_o) + progs.npos(i) + 1 + fl['n']
+        if skipexec:
+            # the callee parameter h must keep its default to be callable: only calls that do not touch it are executed
+            names = [n for n in names if n != 'h']
+            maxpos = 0
         bo, bi, other = progs.execute(fn, names, maxpos, codes, first=inst if unbound else None)
     finally:
         progs.drop_cache(fname)
     return {'tid': tid, 'op': 'fwdprog', 'o': eff_o, 'i': i, 'fl': fl, 'bound': False, 'reported': reported, 'others': others, 'plain': plain,
             'allow_fallback': unbound or auto, 'auto': auto, 'declared': declared, 'agree': agree,
-            'bad_outer': bo, 'bad_inner': bi, 'other_exc': other, 'placement': placement, 'maxpos': maxpos, 'kwpool': names,
+            'bad_outer': bo, 'bad_inner': bi, 'other_exc': other, 'placement': placement, 'maxpos': maxpos, 'kwpool': names, 'skipexec': skipexec,
             'case': {'o': o, 'i': i, 'fl': fl, 'placement': placement, 'src': src}}
 
 
